@@ -78,7 +78,7 @@ PLAN = {
     },
     "C07": {
         "level": "proof",
-        "contracts": ["contracts.evaluation", "contracts.constraints"],
+        "contracts": ["contracts.evaluation", "contracts.constraints", "contracts.search"],
         "bounded": ["bounded.c07"],
         "lemmas": True,
     },
@@ -252,11 +252,17 @@ MANIFEST_TEXT = {
                 "comparison, conjunction, disjunction, implication, forall, exists) returns a result whose `success` equals "
                 "the documented semantics stated over ghost per-combination / per-child verdicts (a raising combination "
                 "fails; lazy = eager; no match = success), keeps the representation invariant 0<=solved<=total, total>=1, "
-                "success<=>solved==total, and does not write the caller's scope/locals dicts. Selector classes and the "
-                "text->search translation are not yet under contract (assumed contracts on combinations/quantify).",
-        "note": "pyvc encoding trusted; GeneticBase.combinations, NonTerminalSearch.quantify, Container.evaluate/get_trees, "
-                "Constraint.eval (user Python) and Comparison.compare are assumed contracts; RepetitionBoundsConstraint.fitness "
-                "is not verified against the abstract contract.",
+                "success<=>solved==total, and does not write the caller's scope/locals dicts. Selector classes (contracts/search.py), "
+                "proved against the documented match lists as sequences in document order: <sym> (scope binding first, else every "
+                "match), base.attr and base..attr (flat-maps of find_direct / find over the base's matches, find and find_direct "
+                "variants), *base and |base| (one container with all matches), quantify over *base (one container per match), "
+                "find_all, the default quantify, DerivationTree.find_direct_trees. Bounded half: 38 constraint programs x all "
+                "words of two grammars against a reference evaluator (covers the text->search translation, ItemSearch, "
+                "SelectiveSearch, which are not under contract).",
+        "note": "pyvc encoding trusted; GeneticBase.combinations, Container.evaluate/get_trees, Constraint.eval (user Python), "
+                "Comparison.compare and the recursive DerivationTree.find_all_trees are assumed contracts; the fitness overrides use "
+                "quantify through an abstract result list (the link to the selector contracts is by name, not mechanised); "
+                "RepetitionBoundsConstraint.fitness is not verified against the abstract contract.",
         "technique": "contract-based deductive verification: own VC generator over the real source, loop invariants, induction lemmas, z3+cvc5",
     },
     "C11": {
